@@ -101,6 +101,8 @@ class Contract:
         self.timeout = kw.pop("timeout", None)
         self.bind_calls = kw.pop("bind_calls", {})      # callee name -> ghost name bound to the call's result
         self.bind_witness = kw.pop("bind_witness", {})  # "callee.witness" -> ghost name bound to the callee's ghost witness
+        self.local_types = kw.pop("local_types", {})   # local name -> annotation text, for un-annotated `x = []` grown in a loop
+        self.reader_loops = kw.pop("reader_loops", False)  # `while <reader>:` loops without a spec: no invariant, measure len(<reader>._view)
         if kw:
             raise TypeError(f"unknown contract fields {list(kw)} for {key}")
 
